@@ -19,6 +19,7 @@ class Folder(object):
         self.repo = repo
         self.pkg = pyfront.package(repo)
         self.cache = {}
+        self.aliases = {}     # (module, reference name) -> actual name of a renamed private constant
 
     def name(self, module, name):
         key = (module, name)
@@ -38,12 +39,44 @@ class Folder(object):
                             r = self.name(s.module, a.name)
                             self.cache[key] = r
                             return r
+            # a private compiled matcher asked for by its reference name (_RE_X = re.compile("^" + RE_X)): find the module-level
+            # name that holds exactly that pattern, whatever it is called now
+            if name.startswith("_RE_") and m.module_assign("RE_" + name[4:]) is not None:
+                want = "^" + self.name(module, "RE_" + name[4:]) + ("$" if name == "_RE_SUBDIR" else "")
+                for st in m.tree.body:
+                    if isinstance(st, ast.Assign) and len(st.targets) == 1 and isinstance(st.targets[0], ast.Name) \
+                            and isinstance(st.value, ast.Call):
+                        try:
+                            v = self.expr(module, st.value)
+                        except AnalysisError:
+                            continue
+                        if v == want:
+                            self.cache[key] = v
+                            self.aliases[(module, name)] = st.targets[0].id
+                            return v
             raise AnalysisError("constant %s not defined at module level of %s" % (name, m.rel))
         r = self.expr(module, val)
         self.cache[key] = r
         return r
 
+    def _with_env(self, module, e, env):
+        """fold `e` with some local names bound to already folded values"""
+        saved = getattr(self, "_env", None)
+        self._env = dict(env)
+        try:
+            return self.expr(module, e)
+        finally:
+            self._env = saved
+
     def expr(self, module, e):
+        env = getattr(self, "_env", None)
+        if env and isinstance(e, ast.Name) and e.id in env:
+            return env[e.id]
+        if isinstance(e, ast.BinOp) and isinstance(e.op, ast.Add):
+            l_, r_ = self.expr(module, e.left), self.expr(module, e.right)
+            if isinstance(l_, (list, tuple)) or isinstance(r_, (list, tuple)):
+                return list(l_) + list(r_)
+            return l_ + r_
         if isinstance(e, ast.Constant) and isinstance(e.value, str):
             return e.value
         if isinstance(e, ast.Constant) and isinstance(e.value, int):
@@ -74,6 +107,19 @@ class Folder(object):
                 sep = self.expr(module, e.func.value)
                 items = self.expr(module, e.args[0])
                 return sep.join(items)
+            # module-level helper with a single return expression: substitute the arguments
+            if isinstance(e.func, ast.Name) and e.func.id in self.pkg[module].functions:
+                f = self.pkg[module].functions[e.func.id]
+                body = [x for x in f.body if not (isinstance(x, ast.Expr) and isinstance(x.value, ast.Constant))]
+                if len(body) == 1 and isinstance(body[0], ast.Return) and body[0].value is not None and not e.keywords:
+                    params = [a.arg for a in f.args.args]
+                    vals = [self.expr(module, a) for a in e.args]
+                    env = dict(zip(params, vals[:len(params)]))
+                    if f.args.vararg is not None:
+                        env[f.args.vararg.arg] = list(vals[len(params):])
+                    elif len(vals) != len(params):
+                        raise AnalysisError("cannot fold call %s" % ast.unparse(e))
+                    return self._with_env(module, body[0].value, env)
             if isinstance(e.func, ast.Attribute) and e.func.attr == "replace":
                 base = self.expr(module, e.func.value)
                 args = [self.expr(module, a) for a in e.args]
